@@ -37,6 +37,12 @@ func genCountCase(r *Rng, tier string) CountCase {
 			if r.Bool() {
 				c.Grow[len(c.Grow)-1] = -(n + 1)
 			}
+			if r.Chance(1, 3) { // two new variables, the higher one first
+				c.Grow = append([]int{n + 2}, c.Grow...)
+				if r.Bool() {
+					c.Grow[0] = -(n + 2)
+				}
+			}
 		}
 	}
 	return c
@@ -259,8 +265,11 @@ func runCountCase(o *Oracle, d json.RawMessage, oc *Outcome) {
 	if c.Solved {
 		s1.Solve()
 	}
+	an5 := sampleAnalyses(s1, 3, 30, 6)
 	got := s1.CountModels()
 	s1.VerifSetEnumHook(nil)
+	s1.VerifSetAnalyzeHook(nil)
+	analysisMirror(o, oc, *an5, "solver.CountModels")
 	if rounds > 1 {
 		oc.Tag("rounds>1")
 	}
@@ -306,7 +315,7 @@ func runCountCase(o *Oracle, d json.RawMessage, oc *Outcome) {
 				}
 				s4.AppendClause(solver.NewClause(ls))
 				er4 := runEnumerate(s4, c.ChanCap, c.Delays)
-				want4 := o.Models(n+1, append(append([]Lin{}, sem...), clauseLin(c.Grow)))
+				want4 := o.Models(maxVarCnf([][]int{c.Grow}), append(append([]Lin{}, sem...), clauseLin(c.Grow)))
 				g4 := append([]string(nil), er4.models...)
 				sort.Strings(g4)
 				sort.Strings(want4)
